@@ -76,7 +76,8 @@ def parseP (s : String) : Option (PkgData × List String) :=
 /-- packages arrive dependencies first; unfold the DAG into one tree per package -/
 def mkTrees (ps : List (PkgData × List String)) : List PkgT :=
   let acc := ps.foldl (fun (acc : List (String × PkgT)) p =>
-    let deps := p.2.filterMap fun i => (acc.find? (·.1 == i)).map (·.2)
+    let deps := p.2.filterMap fun i =>
+      if i == p.1.id then some (PkgT.mk p.1 []) else (acc.find? (·.1 == i)).map (·.2)
     acc ++ [(p.1.id, PkgT.mk p.1 deps)]) []
   acc.map (·.2)
 
